@@ -140,6 +140,12 @@ def annotate(prog) -> List[Any]:
                 node = {"k": k}
                 node["body"] = walk(s[1], dict(env, i=("ctx" if k == "enum" else False), v=True))
                 out.append(node)
+            elif k == "mb":
+                # a fresh qubit prepared by named gates, measured in a Pauli basis (Qubit.measure(basis=...)) into a new future
+                node = {"k": "mb", "prep": s[1], "basis": s[2], "dest": ("loc", st["next_addr"], 0), "new_addr": st["next_addr"]}
+                st["next_addr"] += 1
+                st["lastm"] = (node["new_addr"], 0)
+                out.append(node)
             elif k == "try":
                 # with conn.try_until_success(max_tries): body   (the body is built once, after what was queued before it)
                 out.append({"k": "try", "max": s[1], "body": walk(s[2], env)})
@@ -182,7 +188,7 @@ class Direct:
 
         def walk(ns):
             for n in ns:
-                if n["k"] == "m" and "new_addr" in n:
+                if n["k"] in ("m", "mb") and "new_addr" in n:
                     self.arrays[n["new_addr"]] = [None]
                 elif n["k"] == "until":
                     self.arrays[n["addr"]] = [None]
@@ -296,6 +302,25 @@ class Direct:
             elif k in ("foreach", "enum"):
                 for idx in range(len(self.arrays[0])):
                     self.run(n["body"], dict(env, i=idx, vi=idx))
+            elif k == "mb":
+                self.fresh += 1
+                name = ("f", self.fresh)
+                self.q.add(name)
+                self.trace.append(("init", 1))
+                for g in n["prep"]:
+                    self.q.apply(qsim.GATES1[g], name)
+                    self.trace.append((g, 1))
+                # outcome 0 <-> the +1 eigenstate of the named Pauli: X: |+>, Y: |+i>, Z: |0>
+                if n["basis"] == "X":
+                    self.q.apply(qsim.GATES1["h"], name)
+                elif n["basis"] == "Y":
+                    self.q.apply(qsim.GATES1["h"] @ qsim.GATES1["s"].conj().T, name)
+                p0, p1 = self.q.probabilities(name)
+                out = self.script.outcome(p0, p1)
+                self.q.project(name, out)
+                self.q.remove(name)
+                self.trace.append(("meas", 1, out))
+                self.wr(n["dest"], env, out)
             elif k == "try":
                 self.run(n["body"], env)
             elif k in ("sliceadd", "slicem"):
@@ -438,6 +463,14 @@ class Real:
             elif k == "enum":
                 with self.A0.enumerate() as (i, v):
                     self.build(n["body"], dict(env, v=v, i=i))
+            elif k == "mb":
+                from netqasm.sdk.qubit import QubitMeasureBasis
+                q = Qubit(conn)
+                for g in n["prep"]:
+                    getattr(q, g.upper())()
+                f = q.measure(basis=QubitMeasureBasis[n["basis"]])
+                assert f._address == n["new_addr"], (f._address, n["new_addr"])
+                self.locs[(n["new_addr"], 0)] = f
             elif k == "try":
                 with conn.try_until_success(max_tries=n["max"]):
                     self.build(n["body"], env)
@@ -468,7 +501,7 @@ class Real:
         out = []
         mi = 0
         for t in self.ex.gate_trace:
-            if t[0] == "meas":
+            if t[0] in ("meas", "meas_basis"):
                 out.append(("meas", t[1], self.ex.meas_trace[mi][1]))
                 mi += 1
             else:
@@ -521,7 +554,7 @@ def run_case(prog, flushes, init, part, case_extra=None, config="generic") -> No
     for chosen, (real, obs) in choices.explore(one, max_runs=4096):
         part["evals"] += 1
         outcomes = [o for _, o in real.ex.meas_trace]
-        nontrivial = bool(flushes) or any(s[0] in ("if", "loop", "foreach", "enum", "until", "try", "sliceadd", "slicem") for s in prog)
+        nontrivial = bool(flushes) or any(s[0] in ("if", "loop", "foreach", "enum", "until", "try", "sliceadd", "slicem", "mb") for s in prog)
         part["distinct"] += 1 if nontrivial else 0
         c = dict(case, outcomes=outcomes)
         compare(tree, flushes, init, real, obs, outcomes, c, part)
@@ -955,6 +988,11 @@ def extra_programs():
         for prep in ("1", "0", "+"):
             out.append(([("until", 3, prep, v, [])], [set()], [INITS[0]]))
             out.append(([("until", 2, prep, v, [("add", ("arr", 0), 1, None)]), ("gp", "x")], [set()], [INITS[0]]))
+    # measurement in a named Pauli basis: eigenstates give their eigenvalue's bit, other states both outcomes
+    for prep in ([], ["x"], ["h"], ["x", "h"], ["h", "s"], ["x", "h", "s"]):
+        for basis in ("Z", "X", "Y"):
+            out.append(([("mb", prep, basis)], [set()], [INITS[0]]))
+            out.append(([("mb", prep, basis), ("if", "eq", ("lastm",), 1, "ctx", [("gp", "x")])], [set(), {0}], [INITS[0]]))
     # additions of 0 with a modulus (a "nothing to add" shortcut must still reduce), on array entries and registers
     for mod in (1, 2, 3):
         out.append(([("add", ("arr", 0), 0, mod)], [set()], INITS))
@@ -976,7 +1014,7 @@ def shard_extra(shard):
     return part
 
 
-ARRAY_OPS = [("new", (5, 6)), ("new", (0, 0, 0)), ("newlen", 2), ("flush",), ("add",), ("meas",)]
+ARRAY_OPS = [("new", (5, 6)), ("new", (0, 0, 0)), ("newlen", 2), ("flush",), ("add",), ("meas",), ("flush_nb",)]
 
 
 def shard_array_lifecycle(shard):
@@ -1023,7 +1061,7 @@ def shard_array_lifecycle(shard):
                         q.measure(future=handles[a].get_future_index(len(handles[a]) - 1))
                         pending.append(("set", a, len(handles[a]) - 1, 1))
                     else:
-                        conn.flush()
+                        conn.flush(block=(op[0] != "flush_nb"))      # flush(block=False): same subroutine, the host does not wait
                         model = _model_after(model, pending)
                         pending = []
                         got = {int(a): list(v) for a, v in ex.classical_snapshot(conn.app_id)["arrays"].items()}
